@@ -183,7 +183,7 @@ class Analysis:
         V = []
         for nid in self.order:
             n = self.spec[nid]
-            if n['op'] in ('source', 'sink') or is_async_node(n):
+            if n['op'] in ('source', 'sink', 'external') or is_async_node(n):
                 continue
             if only_ops is not None and n['op'] not in only_ops:
                 continue
@@ -791,7 +791,7 @@ class Analysis:
         ms = {}
         for nid in self.order:
             n = self.spec[nid]
-            if n['op'] in ('source', 'sink'):
+            if n['op'] in ('source', 'sink', 'external'):
                 continue
             if not is_async_node(n):
                 ms[nid] = make_model(n)
